@@ -94,6 +94,11 @@ func (C19) Generate(rng *rand.Rand, tier string) []core.Case {
 	if len(ops) > 0 {
 		cases = append(cases, core.Case{Name: "select-last", Ops: ops})
 	}
+	nr := 30
+	if tier == "thorough" {
+		nr = 600
+	}
+	cases = append(cases, genRounds(rng, nr)...)
 	return cases
 }
 
@@ -181,6 +186,9 @@ func selectErr(err error) string {
 
 func c19op(op string) string {
 	f := strings.Fields(op)
+	if f[0] == "sel.round" {
+		return c19Round(c20kv(f))
+	}
 	c, kv := parseC19(f)
 	switch f[0] {
 	case "sel.ens":
@@ -256,6 +264,15 @@ func (C19) Oracle(ops, impl, model []string) string {
 		}
 		out := impl[i]
 		f := strings.Fields(o)
+		if f[0] == "sel.round" {
+			if out == "hang" || out == "panic" {
+				return fmt.Sprintf("op %d: the rebalancing round %ss (%s)", i, out, o)
+			}
+			if m := c19RoundOracle(c20kv(f), out); m != "" {
+				return fmt.Sprintf("op %d: %s", i, m)
+			}
+			continue
+		}
 		c, kv := parseC19(f)
 		if out == "hang" {
 			return fmt.Sprintf("op %d hangs", i)
